@@ -270,6 +270,23 @@ pub fn big_reader(variant: u8, pattern: &[u8], seed: u64, total: u64) -> (i32, V
         (Ok(g), Some(w)) if g != w => viol.push(json!({"index": seed, "class": "stream-differs-from-reference", "detail": format!("{total} bytes through hash_stream_for: got {g}, reference model {w}"), "history": hist, "engine": "bigstream"})),
         _ => {}
     }
+    // the next call on the same thread: whatever the helper keeps per thread / per process across calls must have survived
+    // the (possibly rejected) huge stream
+    {
+        let mut small = [0u8; 700];
+        Rng::new(seed ^ 0x5eed).fill(&mut small);
+        let wants = crate::kinds::render::<tlsh::Tlsh>(&tlsh::hash_buf(&small));
+        let mut rd: &[u8] = &small;
+        let gots = crate::framework::guarded(|| match tlsh::hash_stream(&mut rd) {
+            Ok(h) => crate::kinds::render::<tlsh::Tlsh>(&Ok(h)),
+            Err(tlsh::GeneratorOrIOError::GeneratorError(e)) => format!("Err({e:?})"),
+            Err(tlsh::GeneratorOrIOError::IOError(e)) => format!("IOError({:?})", e.kind()),
+        })
+        .unwrap_or_else(|p| format!("PANIC: {p}"));
+        if gots != wants {
+            viol.push(json!({"index": seed, "class": "broken-after-huge-stream", "detail": format!("a 700-byte stream hashed on the same thread right after the {total}-byte stream: got {gots}, want {wants}"), "history": hist, "engine": "bigstream"}));
+        }
+    }
     for x in viol.iter_mut() {
         x["argv"] = json!(["bigreader", "--variant", variant.to_string(), "--pattern", crate::data::hex(pattern), "--seed", seed.to_string(), "--total", total.to_string()]);
     }
